@@ -120,4 +120,12 @@ CHECKS = {
         assumptions=["offsets non-negative; canvas area kept below the package's 2^30-pixel reader cap; for stills with an explicit canvas different from the picture the strict still-canvas rule of riffwalk is not applied"],
         tests=[dict(name="TestC14", quick=6400, thorough=150000)],
     ),
+    "C16": dict(
+        level="exploration",
+        rule="well-formed files from four sources: Encode outputs (all codecs, alpha, metadata), AnimEncoder outputs (lossless/lossy/mixed), and hand-assembled containers written by /verif's riffgen: VP8X stills with/without ALPH incl. a zero-length ALPH, ICCP/EXIF/XMP before or after the image, unknown chunks, feature flags over- or under-stating the optional chunks (canvas == image size), and VP8X animations (ANIM + 1-5 ANMF frames inside the canvas, ALPH/VP8/VP8L sub-chunks, unknown chunks between/inside frames). "
+             "Oracle: GetFeatures, DecodeConfig, mux.Demuxer and animation.DecodeBytes all accept and agree on canvas size, animation flag, frame count and (animated) loop count; for stills Decode accepts: header width/height == decoded bounds, DecodeConfig.ColorModel == decoded image's ColorModel(), format name matches the first chunk, package-written files set the alpha flag whenever a decoded pixel is not opaque, image.Decode/image.DecodeConfig report \"webp\" and the same results. "
+             "Non-trivial: every file; distinct = (source, format, animated, chunk layout with empty/odd markers).",
+        assumptions=["the harness binary links no other decoder registering the webp format (x/image/webp is vendored without its init)"],
+        tests=[dict(name="TestC16", quick=6400, thorough=150000)],
+    ),
 }
